@@ -13,6 +13,7 @@ import (
 	"fmt"
 	"io"
 	"os"
+	"runtime"
 	"sort"
 	"strings"
 	"sync"
@@ -46,13 +47,16 @@ type ReqSpec struct {
 	ReqWGateAt  int `json:"req_wgate_at"`  // a second stall point of the same kind
 	Prio        int `json:"prio"`
 	DedupKey    int `json:"dedup_key"` // 0 = none, else dedup-by-key "k<n>" and an own requestor store
+	// OutHookYield: the requestor's outgoing-request hook for this request is slow (it yields to other
+	// goroutines), which keeps the request manager's loop busy while other things queue up behind it
+	OutHookYield bool `json:"out_hook_yield,omitempty"`
 	// DNS (keyed requests only): blocks (indices into the build order) the request lists as do-not-send; the
 	// request's own store holds them from the start, as a caller that lists them would
 	DNS []int `json:"dns,omitempty"`
 }
 
 type Op struct {
-	K string `json:"k"` // start deliver qpause qunpause qcancel spause sunpause scancel sgate qgate tick intrude
+	K string `json:"k"` // start deliver qpause qunpause qcancel spause sunpause scancel sgate qgate tick intrude behind qrace
 	R int    `json:"r"`
 	N int    `json:"n,omitempty"`
 	X *Intr  `json:"x,omitempty"` // intrude: what the third peer sends to the requestor (delivered at once)
@@ -333,6 +337,7 @@ func RunWith(t *testing.T, c Case, st *Stores) *Result {
 			res.Events = append(res.Events, Event{K: k, R: r, Info: info})
 			mu.Unlock()
 		}
+		inOutHook := false
 		runReq, runResp := map[int]bool{}, map[int]bool{}
 		rq.GS.RegisterOutgoingRequestHook(func(p peer.ID, rd graphsync.RequestData, ha graphsync.OutgoingRequestHookActions) {
 			if i, ok := idxOf(rd); ok {
@@ -340,6 +345,14 @@ func RunWith(t *testing.T, c Case, st *Stores) *Result {
 				res.Reqs[i].ID, res.Reqs[i].HasID = rd.ID(), true
 				if k := c.Reqs[i].DedupKey; k > 0 {
 					ha.UsePersistenceOption(fmt.Sprintf("k%d", k))
+				}
+				if c.Reqs[i].OutHookYield {
+					mu.Lock()
+					inOutHook = true
+					mu.Unlock()
+					for k := 0; k < 600; k++ {
+						runtime.Gosched()
+					}
 				}
 			}
 		})
@@ -847,6 +860,51 @@ func RunWith(t *testing.T, c Case, st *Stores) *Result {
 					res.IntrudedPaused++
 				}
 				desc = fmt.Sprintf("%s(%v st=%d ext=%s)", op.K, op.X.Reqs, op.X.Status, op.X.Ext)
+			case "qrace":
+				// request i waits in the queue behind a busy worker (held by request op.N's gate, at the block at
+				// which it then pauses itself). In one go, while the loop is busy with a first slow
+				// outgoing-request hook: the gate opens (the worker's release of its task queues up), a second
+				// request with a slow hook queues up, then i's cancel. The loop handles the release, the worker
+				// comes free and picks i's task up while the loop sits in the second hook -- and i's cancel is
+				// handled before the worker's question about that task
+				h := op.N % len(c.Reqs)
+				var ys []int
+				for k := range c.Reqs {
+					if results[k] == nil && c.Reqs[k].OutHookYield {
+						ys = append(ys, k)
+					}
+				}
+				if len(ys) < 2 || !res.Reqs[i].HasID || results[i] == nil {
+					continue
+				}
+				mu.Lock()
+				inOutHook = false
+				mu.Unlock()
+				started := make(chan struct{}, 2)
+				go func() { start(ys[0]); started <- struct{}{} }()
+				for k := 0; k < 200; k++ {
+					runtime.Gosched()
+					mu.Lock()
+					in := inOutHook
+					mu.Unlock()
+					if in {
+						break
+					}
+				}
+				qgates[h].release()
+				wgates[h].release()
+				for k := 0; k < 30; k++ {
+					runtime.Gosched()
+				}
+				go func() { start(ys[1]); started <- struct{}{} }()
+				for k := 0; k < 10; k++ {
+					runtime.Gosched()
+				}
+				id := res.Reqs[i].ID
+				api(desc, func() error { return rq.GS.Cancel(w.Ctx, id) })
+				<-started
+				<-started
+				res.Labels["cancel-races-the-worker-picking-the-task-up"] = true
 			case "sgate":
 				sgates[i].release()
 			case "qgate":
